@@ -109,9 +109,7 @@ pub fn compile_case(am: &mut Amortised, src: &str, what: &str, replay: Value, re
 }
 
 fn am_write(am: &mut Amortised, src: &str) -> std::path::PathBuf {
-    let dir = am.scratch_dir();
-    let _ = write_pkg(&dir, "gencase", src, true);
-    dir
+    am.write_unique(src)
 }
 
 // ------------------------------------------------------------------------------------------
